@@ -179,6 +179,7 @@ const NAcct = 12
 // Env is one deterministic in-process chain.
 type Env struct {
 	App     *simapp.TestApp
+	DB      tmdb.DB // the database under the app's committed multistore (kept so that Restart can reopen it)
 	Ctx     sdk.Context
 	Accts   []sdk.AccAddress // sorted so that bech32 string order == index order
 	OvmPriv []ed25519.PrivateKey
@@ -205,8 +206,39 @@ func detAddr(i int) sdk.AccAddress {
 const BaseTime int64 = 1_700_000_000
 
 // NewEnv builds a fresh app with NAcct funded accounts (balance `bal` of usge each), nOvm oracle keys.
-func NewEnv(bal int64, nOvm int) *Env {
-	e := &Env{}
+func NewEnv(bal int64, nOvm int) *Env { return NewEnvOn(tmdb.NewMemDB(), bal, nOvm) }
+
+// newAppOn constructs the application over db exactly as a node's start-up does (loadLatest = true: NewSgeApp
+// mounts the stores and loads the latest committed version of the multistore found in db, none for an empty db).
+func newAppOn(db tmdb.DB) *app.SgeApp {
+	return app.NewSgeApp(log.NewNopLogger(), db, nil, true, map[int64]bool{}, "", 0, app.MakeEncodingConfig(),
+		simtestutil.EmptyAppOptions{}, []wasmkeeper.Option{})
+}
+
+// Restart replaces the application by a NEW instance constructed over the SAME database: what a validator does
+// when its process is stopped and started again between two blocks (and, as far as the application is concerned,
+// what a node does that joins by state sync: committed state only). Everything that hangs off the old application
+// object — keeper structs and whatever they point to, IAVL node caches, the check/deliver states of baseapp,
+// memory stores — is gone or rebuilt; the committed multistore (all versions) is what the new instance loads.
+// What is NOT reset is package-level state (the OS process is the same one): the C15 fact theorem
+// `no_package_level_mutable_state` covers that side statically. Must be called right after a Commit. Returns an
+// error text when the reopened application does not stand at the committed height / app hash.
+func (e *Env) Restart() string {
+	h, id := e.App.LastBlockHeight(), e.App.LastCommitID()
+	a := newAppOn(e.DB)
+	e.App = &simapp.TestApp{SgeApp: *a}
+	if a.LastBlockHeight() != h || !bytesEq(a.LastCommitID().Hash, id.Hash) {
+		return fmt.Sprintf("reopened application stands at height %d hash %x, the stopped one committed height %d hash %x",
+			a.LastBlockHeight(), a.LastCommitID().Hash, h, id.Hash)
+	}
+	return ""
+}
+
+func bytesEq(a, b []byte) bool { return string(a) == string(b) }
+
+// NewEnvOn is NewEnv over a database the caller keeps a handle to.
+func NewEnvOn(db tmdb.DB, bal int64, nOvm int) *Env {
+	e := &Env{DB: db}
 	for i := 0; i < NAcct; i++ {
 		e.Accts = append(e.Accts, detAddr(i))
 	}
@@ -217,10 +249,7 @@ func NewEnv(bal int64, nOvm int) *Env {
 		e.OvmPub = append(e.OvmPub, pem)
 	}
 
-	db := tmdb.NewMemDB()
-	encCdc := app.MakeEncodingConfig()
-	appInstance := app.NewSgeApp(log.NewNopLogger(), db, nil, true, map[int64]bool{}, "", 0, encCdc,
-		simtestutil.EmptyAppOptions{}, []wasmkeeper.Option{})
+	appInstance := newAppOn(db)
 	genesisState := app.NewDefaultGenesisState()
 
 	var genAccs []authtypes.GenesisAccount
